@@ -663,7 +663,9 @@ func builtin_ord(self, obj py.Object) (py.Object, error) {
 	case py.String:
 		size = len(x)
 		rune, runeSize := utf8.DecodeRuneInString(string(x))
-		if size == runeSize && rune != utf8.RuneError {
+		// RuneError with a size of 0 or 1 signals an empty or badly
+		// encoded string, a genuine U+FFFD decodes with a size of 3
+		if size == runeSize && (rune != utf8.RuneError || runeSize > 1) {
 			return py.Int(rune), nil
 		}
 	//case py.ByteArray:
